@@ -169,72 +169,99 @@ def voltaEndLoop (times : List Int) (i : Nat) (re : Option Int) : List Nat → B
       | some d => voltaEndLoop times i re rest { st with cvrs := cvrs, info := addTo i [(Tag.volta 10, d)] st.info }
     else voltaEndLoop times i re rest st
 
-/-- one iteration of `for ss in boundary_times[:-1]` (boundary keys in their insertion order) -/
-def procSeg (L : Layout) (tb : BTable) (times : List Int) (i : Nat) (ss se : Int) (st : BState) : Option BState := do
-  let b ← tblGet se tb
-  let idSe ← idOf times se
-  -- repeat_start
-  let st := if b.repeatStart then { st with info := addTo i [(Tag.plain, idSe)] st.info } else st
-  -- repeat_end
-  let st ← match b.repeatEnd with
-    | none => some st
-    | some rs =>
-      if b.voltaEnd then some st
-      else match idOf times rs with
+/-! one iteration of `for ss in boundary_times[:-1]`: one small step per boundary key, in the keys'
+insertion order; `i` = index of the segment, `idSe` = id of the segment starting at its end -/
+
+def stRepeatStart (i : Nat) (b : BInfo) (idSe : Dest) (st : BState) : BState :=
+  if b.repeatStart then { st with info := addTo i [(Tag.plain, idSe)] st.info } else st
+
+def stRepeatEnd (times : List Int) (i : Nat) (b : BInfo) (idSe : Dest) (st : BState) : Option BState :=
+  match b.repeatEnd with
+  | none => some st
+  | some rs =>
+    if b.voltaEnd then some st
+    else match idOf times rs with
+      | none => none
+      | some d => some { st with info := addTo i [(Tag.plain, idSe), (Tag.plain, d)] st.info }
+
+/-- first bracket of a group only -/
+def stVoltaStart (tb : BTable) (times : List Int) (i : Nat) (b : BInfo) (se : Int) (st : BState) : Option BState :=
+  if b.voltaStart.isSome && !b.voltaEnd then
+    voltaScan tb times i 10 { st with cvt := 0, cve := se }
+  else some st
+
+def stVoltaEnd (times : List Int) (i : Nat) (b : BInfo) (st : BState) : Option BState :=
+  if b.voltaEnd then
+    let nums := match st.info[i]? with
+      | some s => s.voltaNums
+      | none => []
+    match voltaEndLoop times i b.repeatEnd nums st with
+    | none => none
+    | some st =>
+      if nums.contains st.cvt then
+        match idOf times st.cve with
         | none => none
-        | some d => some { st with info := addTo i [(Tag.plain, idSe), (Tag.plain, d)] st.info }
-  -- volta_start (first bracket of a group only)
-  let st ← if b.voltaStart.isSome && !b.voltaEnd then
-      voltaScan tb times i 10 { st with cvt := 0, cve := se }
-    else some st
-  -- volta_end
-  let st ← if b.voltaEnd then do
-      let nums := match st.info[i]? with
-        | some s => s.voltaNums
-        | none => []
-      let st ← voltaEndLoop times i b.repeatEnd nums st
-      if nums.contains st.cvt then do
-        let d ← idOf times st.cve
-        some { st with info := addTo i [(Tag.plain, d)] st.info }
+        | some d => some { st with info := addTo i [(Tag.plain, d)] st.info }
       else some st
-    else some st
-  -- coda (`segment_info[se]["info"]` does not exist for the END entry: KeyError)
-  let st ← if b.coda then
-      (if idSe = .fin then none else
-        some { st with info := setTy (i + 1) .leapEnd (addTo i [(Tag.plain, idSe)] st.info) })
-    else some st
-  -- tocoda
-  let st ← if b.tocoda then do
-      let ct ← L.codas.head?
-      let d ← idOf times ct
-      some { st with info := setTy i .leapStart (addTo i [(Tag.plain, idSe), (Tag.nav2, d)] st.info) }
-    else some st
-  -- dacapo
-  let st ← if b.dacapo then do
-      let d ← idOf times L.first
-      some { st with info := setTy i .leapStart (addTo i [(Tag.plain, idSe), (Tag.nav1, d), (Tag.nav2, idSe)] st.info) }
-    else some st
-  -- fine
-  let st ← if b.fine then do
-      let d ← idOf times L.last
-      some { st with info := addTo i [(Tag.plain, idSe), (Tag.nav2, d)] st.info }
-    else some st
-  -- segno (same KeyError at the END entry)
-  let st ← if b.segno then
-      (if idSe = .fin then none else
-        some { st with info := setTy (i + 1) .leapEnd (addTo i [(Tag.plain, idSe)] st.info) })
-    else some st
-  -- dalsegno
-  let st ← if b.dalsegno then do
-      let sg ← L.segnos.head?
-      let d ← idOf times sg
-      some { st with info := setTy i .leapStart (addTo i [(Tag.plain, idSe), (Tag.nav1, d), (Tag.nav2, idSe)] st.info) }
-    else some st
-  -- end
-  let st := if b.isEnd then { st with info := addTo i [(Tag.plain, idSe)] st.info } else st
-  -- `if ss == 0: type = "leap_end"` (after every key, hence last)
-  let st := if ss = 0 then { st with info := setTy i .leapEnd st.info } else st
-  some st
+  else some st
+
+/-- coda / segno: `segment_info[se]["info"]` does not exist for the END entry (KeyError) -/
+def stLeapEnd (flag : Bool) (i : Nat) (idSe : Dest) (st : BState) : Option BState :=
+  if flag then
+    (if idSe = .fin then none else
+      some { st with info := setTy (i + 1) .leapEnd (addTo i [(Tag.plain, idSe)] st.info) })
+  else some st
+
+def stToCoda (L : Layout) (times : List Int) (i : Nat) (b : BInfo) (idSe : Dest) (st : BState) : Option BState :=
+  if b.tocoda then
+    match L.codas.head? with
+    | none => none
+    | some ct => match idOf times ct with
+      | none => none
+      | some d => some { st with info := setTy i .leapStart (addTo i [(Tag.plain, idSe), (Tag.nav2, d)] st.info) }
+  else some st
+
+/-- da capo (target = first point) and dal segno (target = first segno) -/
+def stJumpBack (flag : Bool) (target : Option Int) (times : List Int) (i : Nat) (idSe : Dest) (st : BState) :
+    Option BState :=
+  if flag then
+    match target with
+    | none => none
+    | some t => match idOf times t with
+      | none => none
+      | some d =>
+        let info := setTy i .leapStart (addTo i [(Tag.plain, idSe), (Tag.nav1, d), (Tag.nav2, idSe)] st.info)
+        some { st with info := info }
+  else some st
+
+def stFine (L : Layout) (times : List Int) (i : Nat) (b : BInfo) (idSe : Dest) (st : BState) : Option BState :=
+  if b.fine then
+    match idOf times L.last with
+    | none => none
+    | some d => some { st with info := addTo i [(Tag.plain, idSe), (Tag.nav2, d)] st.info }
+  else some st
+
+def stEnd (i : Nat) (b : BInfo) (idSe : Dest) (st : BState) : BState :=
+  if b.isEnd then { st with info := addTo i [(Tag.plain, idSe)] st.info } else st
+
+/-- `if ss == 0: type = "leap_end"` (after every key, hence last) -/
+def stFirst (i : Nat) (ss : Int) (st : BState) : BState :=
+  if ss = 0 then { st with info := setTy i .leapEnd st.info } else st
+
+def procSeg (L : Layout) (tb : BTable) (times : List Int) (i : Nat) (ss se : Int) (st : BState) : Option BState :=
+  match tblGet se tb, idOf times se with
+  | some b, some idSe =>
+    (stRepeatEnd times i b idSe (stRepeatStart i b idSe st)).bind fun st =>
+    (stVoltaStart tb times i b se st).bind fun st =>
+    (stVoltaEnd times i b st).bind fun st =>
+    (stLeapEnd b.coda i idSe st).bind fun st =>
+    (stToCoda L times i b idSe st).bind fun st =>
+    (stJumpBack b.dacapo (some L.first) times i idSe st).bind fun st =>
+    (stFine L times i b idSe st).bind fun st =>
+    (stLeapEnd b.segno i idSe st).bind fun st =>
+    (stJumpBack b.dalsegno L.segnos.head? times i idSe st).bind fun st =>
+    some (stFirst i ss (stEnd i b idSe st))
+  | _, _ => none
 
 def procAll (L : Layout) (tb : BTable) (times : List Int) : Nat → List Int → BState → Option BState
   | i, ss :: se :: rest, st =>
@@ -563,16 +590,25 @@ def insInt (x : Int) : List Int → List Int
   | [] => [x]
   | y :: ys => if x < y then x :: y :: ys else if x = y then y :: ys else y :: insInt x ys
 
+/-- shifted time points of every visited `[s, e)` -/
+def shiftedPoints (points : List Int) (vs : List Visit) (acc : List Int) : List Int :=
+  vs.foldl (fun acc v =>
+    (points.filter fun t => decide (v.s ≤ t) && decide (t < v.e)).foldl
+      (fun acc t => insInt (t + (v.off - v.s)) acc) acc) acc
+
+/-- the point one copied object adds: its end; for the extra fermata its start -/
+def objPoint (o : OObj) : Option Int :=
+  if o.extra then some o.start else o.stp
+
+def outPoints (out : List OObj) (acc : List Int) : List Int :=
+  out.foldl (fun acc o => match objPoint o with
+    | some t => insInt t acc
+    | none => acc) acc
+
 /-- the time points of the new part: shifted points of every visited `[s, e)`, the ends of the copied
 objects, the segment end when a fermata was taken from it -/
 def variantPoints (points : List Int) (vs : List Visit) (out : List OObj) : List Int :=
-  let a := vs.foldl (fun acc v =>
-    (points.filter fun t => v.s ≤ t && t < v.e).foldl (fun acc t => insInt (t + (v.off - v.s)) acc) acc) []
-  out.foldl (fun acc o =>
-    let acc := if o.extra then insInt o.start acc else acc
-    match o.extra, o.stp with
-    | false, some e => insInt e acc
-    | _, _ => acc) a
+  outPoints out (shiftedPoints points vs [])
 
 structure Variant where
   points : List Int
